@@ -307,7 +307,7 @@ theorem C04_model_partial_all (o : Options) (s : Spec.Script) (c : Compiled) (hf
 
 /-- non-vacuity: a property script with a structured handler (`repeat with … down to` > `if … else` with a condition that needs
     the parentheses of F160, a `hilite`, a command call, a call of a handler of the same script; `repeat while` with an infix condition;
-    `return`) and a flat handler -/
+    `repeat with it in [1, total]`; `return`) and a flat handler -/
 def exAll : Spec.Script :=
   { factory := [], props := ["pLast".toList], globals := [],
     handlers := [
@@ -321,6 +321,8 @@ def exAll : Spec.Script :=
                           .call "helper".toList [.var .loc "total".toList, .sym "odd".toList] ] ],
                   .repeatWhile (.bin .gt (.var .loc "total".toList) (.int 100))
                     [ .set (.var .loc "total".toList) (.bin .div (.var .loc "total".toList) (.int 2)) ],
+                  .repeatIn (.var .loc "it".toList) (.list [.int 1, .var .loc "total".toList])
+                    [ .call "put".toList [.var .loc "it".toList] ],
                   .call "return".toList [.var .loc "total".toList] ] },
       { name := "helper".toList, params := ["a".toList, "b".toList], isMethod := false,
         body := [ .set (.var .prop "pLast".toList) (.var .param "a".toList), .exit ] } ] }
@@ -343,7 +345,7 @@ example : ∃ c, compile {} exAll = .ok c ∧ NamesOk c := by
 example : String.ofList (txClassProg ("Object__".toList ++ (toString 0).toList) (S "ObjectBase")
       (exAll.handlers.map (toJsFunc (exAll.handlers.map (·.name)) true))
       ((exAll.handlers.filter (·.name ≠ "birth".toList)).map fun h => wrapperFunc h.name)) =
-    "class Object__0 extends ObjectBase {\n    countDown(n) {\n        var total;\n        var i;\n\n        total = 0;\n        for(i = n; i >= 1; i--) {\n            if ((i % 2).concat(new LingoString(\"x\")).contains(new LingoString(\"1\"))) {\n                total = (total + i);\n                hilite(field(i).word[1]);\n            } else {\n                beep();\n                fn_call(helper(total, symbol('odd')));\n            }\n        }\n        while (total > 100) {\n            total = (total / 2);\n        }\n        return total;\n    }\n\n    helper(a, b) {\n        this.pLast = a;\n        exit();\n    }\n}\n\nfunction countDown(obj, ...args) {\n    return obj.countDown(...args);\n}\nfunction helper(obj, ...args) {\n    return obj.helper(...args);\n}\n" := by
+    "class Object__0 extends ObjectBase {\n    countDown(n) {\n        var total;\n        var i;\n        var it;\n\n        total = 0;\n        for(i = n; i >= 1; i--) {\n            if ((i % 2).concat(new LingoString(\"x\")).contains(new LingoString(\"1\"))) {\n                total = (total + i);\n                hilite(field(i).word[1]);\n            } else {\n                beep();\n                fn_call(helper(total, symbol('odd')));\n            }\n        }\n        while (total > 100) {\n            total = (total / 2);\n        }\n        for(it of list(1, total)) {\n            put(it);\n        }\n        return total;\n    }\n\n    helper(a, b) {\n        this.pLast = a;\n        exit();\n    }\n}\n\nfunction countDown(obj, ...args) {\n    return obj.countDown(...args);\n}\nfunction helper(obj, ...args) {\n    return obj.helper(...args);\n}\n" := by
   decide +kernel
 
 /-- the text `generate_js` returns for a node (none if it raises or returns an int) -/
@@ -355,7 +357,7 @@ def jsOut (n : Node) : Option String :=
 /-! ### the expression forms added to `JsOkE` in the second round: property lists, `the P of obj`, chunk expressions, the built-in
      properties of sprite / cast / sound (all inside `J_text` / `J_lex` / `J_read` and the composed theorems above) -/
 
-/-- non-vacuity: a flat handler using every new form -/
+/-- non-vacuity: a flat handler using every new form (expressions, assignment targets, `put` / `delete`, method calls) -/
 def exForms : Spec.Script :=
   { factory := [], props := [], globals := ["gObj".toList],
     handlers := [
@@ -369,7 +371,14 @@ def exForms : Spec.Script :=
                   .set (.oprop "foo".toList (.var .glob "gObj".toList)) (.var .loc "x".toList),
                   .set (.var .loc "y".toList) (.bin .concat (.the .numChunks 2 [.var .param "s".toList])
                       (.the .special 12 [.the .field 2 [.bin .add (.var .param "i".toList) (.int 1)]])),
-                  .set (.var .loc "z".toList) (.list [.key "mouseH".toList, .key "optionDown".toList, .the .special 0 []]) ] } ] }
+                  .set (.var .loc "z".toList) (.list [.key "mouseH".toList, .key "optionDown".toList, .the .special 0 []]),
+                  .put .after (.str "x".toList) (.chunk .word (.int 2) (.int 0) (.field (.int 3))),
+                  .put .into (.var .param "s".toList) (.field (.var .param "i".toList)),
+                  .put .before (.bin .add (.var .param "n".toList) (.int 1)) (.var .loc "x".toList),
+                  .delete (.chunk .char (.int 1) (.int 2) (.chunk .word (.int 2) (.int 0) (.var .loc "x".toList))),
+                  .set (.the .special 0 []) (.int 4),
+                  .mcall (.var .param "s".toList) "mReset".toList [.int 1, .var .loc "x".toList],
+                  .set (.var .loc "w".toList) (.mcall (.var .loc "x".toList) "mGet".toList []) ] } ] }
 
 example : JsLinkScript exForms = true := by decide +kernel
 
@@ -383,7 +392,7 @@ example : ∃ c, compile {} exForms = .ok c ∧ NamesOk c := by
 
 /-- the text the theorems predict (the REAL translator prints exactly this text for the compiled chunks) -/
 example : String.ofList (txFuncs (exForms.handlers.map (toJsFunc (exForms.handlers.map (·.name)) false)) true) =
-    "function forms(s, n, i) {\n    var x;\n    var y;\n    var z;\n    var w;\n\n    x = propList(symbol('a'), _global.gObj.foo, symbol('b'), s.word[2]);\n    y = (sprite(3).locH + sound(i).volume);\n    z = member(i).name.char[range(1, n)];\n    w = (7).item[-(n)].length;\n    sprite(i).locH = (sprite(i).locH + 1);\n    _global.gObj.foo = x;\n    y = s.word.length.concat(field((i + 1)).text.char[\"last\"]);\n    z = list(_mouse.mouseH, _key.optionDown, _system.floatPrecision);\n}\n" := by
+    "function forms(s, n, i) {\n    var x;\n    var y;\n    var z;\n    var w;\n\n    x = propList(symbol('a'), _global.gObj.foo, symbol('b'), s.word[2]);\n    y = (sprite(3).locH + sound(i).volume);\n    z = member(i).name.char[range(1, n)];\n    w = (7).item[-(n)].length;\n    sprite(i).locH = (sprite(i).locH + 1);\n    _global.gObj.foo = x;\n    y = s.word.length.concat(field((i + 1)).text.char[\"last\"]);\n    z = list(_mouse.mouseH, _key.optionDown, _system.floatPrecision);\n    field(3).text.word[2] = new LingoString(field(3).text.word[2] + new LingoString(\"x\"));\n    field(i).text = s;\n    x = new LingoString((n + 1) + x);\n    delete(x.word[2].char[range(1, 2)]);\n    _system.floatPrecision = 4;\n    s(symbol('mReset'), 1, x);\n    w = x(symbol('mGet'));\n}\n" := by
   decide +kernel
 
 /-- F20 (open): the object index of a built-in property keeps only the popped node's `.name` — a global loses its `_global.`; the
